@@ -115,6 +115,13 @@ Definition ff_angular (l : list xv) : xv :=
   let range := xclip_max (sector_x false l) (XFin 180) in
   xdiv (xsub tv range) (XFin (nm2 (length l))).
 
+(* ---- proved specification of the angular index (coq/proofs/C18_ang.v: ff_angular_formula) ---- *)
+Definition angdiff_q (a b : Q) : Q := fold180 (qmod360 (Qabs (a - b))).
+Fixpoint tv_ang (l : list Q) : Q :=
+  match l with a :: t => match t with b :: _ => angdiff_q a b + tv_ang t | [] => 0 end | [] => 0 end.
+Definition qmin2 (a b : Q) : Q := if Qle_bool a b then a else b.
+Definition ff_angular_spec (l : list Q) : Q := (tv_ang l - qmin2 (sector_spec l) 180) / nm2 (length l).
+
 Definition ff_seq (angular : bool) : list xv -> xv := if angular then ff_angular else ff_linear.
 
 (* ---- proved specification of the linear index (coq/proofs/C18.v: ff_formula) ---- *)
@@ -257,7 +264,7 @@ Definition entries_C18 : list entry := [
        let? labels := d_zs labels in let? sels := d_list d_zs sels in
        Some (e_result e_larrs (ff_prop_exceeding a sd thr ang rd pd labels sels))
      | _ => None end));
-  (* sequence level: ( (values) ) -> ( model_linear spec_linear model_angular sector_code sector_gap_spec sector_arc_spec ) *)
+  (* sequence level: ( (values) ) -> ( model_linear spec_linear model_angular sector_code sector_gap_spec sector_arc_spec spec_angular ) *)
   ("c18_seq", fun r => orun (
      match r with RL [l] =>
        let? l := d_xvs l in
@@ -265,7 +272,8 @@ Definition entries_C18 : list entry := [
        let okq := (nbad l =? 0)%nat && negb (length l =? 0)%nat in
        Some (RL [e_xv (ff_linear l); e_xv (ff_spec_x l); e_xv (ff_angular l); e_xv (sector_x false l);
                  e_xv (if okq then XFin (sector_spec q) else XNaN);
-                 e_xv (if okq then XFin (sector_arc q) else XNaN)])
+                 e_xv (if okq then XFin (sector_arc q) else XNaN);
+                 e_xv (if okq && negb (length l =? 2)%nat then XFin (ff_angular_spec q) else XNaN)])
      | _ => None end));
   (* ( (values) t ) -> proportion of valid values >= t *)
   ("c18_prop_spec", fun r => orun (
